@@ -13,7 +13,7 @@ run() {
   ${MLRLINT:-./bin/mlrlint} -child -prop $p -repo ${VERIF_REPO:-/repo} -verif "$(pwd)" -patch ${SEEDED_DIR:-seeded}/$s/patch.diff 2>&1 | grep '^CHILD-RESULT' | sed 's/^CHILD-RESULT //' > $out/$s.$p.json
 }
 export -f run
-for d in ${SEEDED_DIR:-seeded}/$glob; do s=$(basename $d); for p in $props; do echo "$s $p $out"; done; done | xargs -P 6 -L 1 bash -c 'run $0 $1 $2'
+for d in ${SEEDED_DIR:-seeded}/$glob; do s=$(basename $d); for p in $props; do echo "$s $p $out"; done; done | xargs -P ${MATRIX_JOBS:-6} -L 1 bash -c 'run $0 $1 $2'
 python3 - "$out" <<'PY'
 import json,sys,glob,os
 out=sys.argv[1]
